@@ -68,7 +68,7 @@ def run(ctx):
         ev = evaluate(f)
         for b in R.err_blocks(f):
             nerr += 1
-            lits = G.path_literals(ev, b, P)
+            lits = G.path_literals(ev, b, P, checks_only=True)
             ok = any(p and a[0] == "atom" and a[1] == "is_zero" and R.subject_matches(a[2], ("param", "sk")) for a, p in lits)
             ctx.ob("E4.exits", "%s/err@%s" % (f.key, _err_kind(f, b)), ok, "error exit in the signing path must be the zero-key guard; path condition: %s" % sorted(G.show_f(a, 3) + ("" if p else " [false]") for a, p in lits)[:4], where=where(f, b))
     ctx.floor("E4.exits", "error-constructing exits on the signing path", nerr, 1)
